@@ -249,3 +249,45 @@ pub proof fn lemma_bytes_bits_u16(x: u16)
     assert(bytes_bits(Seq::<u8>::empty()) =~= Seq::<bool>::empty());
     assert(bytes_bits(seq![lo, hi]) =~= lsb_bits(lo as nat, 8) + lsb_bits(hi as nat, 8));
 }
+
+/// bytes_bits is injective
+pub proof fn lemma_bytes_bits_inj(a: Seq<u8>, b: Seq<u8>)
+    requires bytes_bits(a) == bytes_bits(b),
+    ensures a == b,
+{
+    assert(a.len() == b.len()) by { assert(bytes_bits(a).len() == 8 * a.len()); assert(bytes_bits(b).len() == 8 * b.len()); }
+    assert forall|i: int| 0 <= i < a.len() implies a[i] == b[i] by {
+        assert forall|j: nat| j < 8 implies bit_of(a[i] as nat, j) == bit_of(b[i] as nat, j) by {
+            let k = 8 * i + j as int;
+            assert(bytes_bits(a)[k] == bit_of(a[k / 8] as nat, (k % 8) as nat));
+            assert(bytes_bits(b)[k] == bit_of(b[k / 8] as nat, (k % 8) as nat));
+            assert(k / 8 == i && k % 8 == j as int);
+        }
+        lemma_u8_bits_inj(a[i], b[i]);
+    }
+    assert(a =~= b);
+}
+pub proof fn lemma_u8_bits_inj(x: u8, y: u8)
+    requires forall|j: nat| j < 8 ==> bit_of(x as nat, j) == bit_of(y as nat, j),
+    ensures x == y,
+{
+    let xx = x as u32; let yy = y as u32;
+    lemma_bit_test_u32(xx, 0); lemma_bit_test_u32(yy, 0); lemma_bit_test_u32(xx, 1); lemma_bit_test_u32(yy, 1);
+    lemma_bit_test_u32(xx, 2); lemma_bit_test_u32(yy, 2); lemma_bit_test_u32(xx, 3); lemma_bit_test_u32(yy, 3);
+    lemma_bit_test_u32(xx, 4); lemma_bit_test_u32(yy, 4); lemma_bit_test_u32(xx, 5); lemma_bit_test_u32(yy, 5);
+    lemma_bit_test_u32(xx, 6); lemma_bit_test_u32(yy, 6); lemma_bit_test_u32(xx, 7); lemma_bit_test_u32(yy, 7);
+    assert(bit_of(x as nat, 0) == bit_of(y as nat, 0)); assert(bit_of(x as nat, 1) == bit_of(y as nat, 1));
+    assert(bit_of(x as nat, 2) == bit_of(y as nat, 2)); assert(bit_of(x as nat, 3) == bit_of(y as nat, 3));
+    assert(bit_of(x as nat, 4) == bit_of(y as nat, 4)); assert(bit_of(x as nat, 5) == bit_of(y as nat, 5));
+    assert(bit_of(x as nat, 6) == bit_of(y as nat, 6)); assert(bit_of(x as nat, 7) == bit_of(y as nat, 7));
+    assert(xx == yy) by (bit_vector)
+        requires xx < 256, yy < 256,
+            ((xx >> 0) & 1) == ((yy >> 0) & 1) || (((xx >> 0) & 1) != 1 && ((yy >> 0) & 1) != 1),
+            ((xx >> 1) & 1) == ((yy >> 1) & 1) || (((xx >> 1) & 1) != 1 && ((yy >> 1) & 1) != 1),
+            ((xx >> 2) & 1) == ((yy >> 2) & 1) || (((xx >> 2) & 1) != 1 && ((yy >> 2) & 1) != 1),
+            ((xx >> 3) & 1) == ((yy >> 3) & 1) || (((xx >> 3) & 1) != 1 && ((yy >> 3) & 1) != 1),
+            ((xx >> 4) & 1) == ((yy >> 4) & 1) || (((xx >> 4) & 1) != 1 && ((yy >> 4) & 1) != 1),
+            ((xx >> 5) & 1) == ((yy >> 5) & 1) || (((xx >> 5) & 1) != 1 && ((yy >> 5) & 1) != 1),
+            ((xx >> 6) & 1) == ((yy >> 6) & 1) || (((xx >> 6) & 1) != 1 && ((yy >> 6) & 1) != 1),
+            ((xx >> 7) & 1) == ((yy >> 7) & 1) || (((xx >> 7) & 1) != 1 && ((yy >> 7) & 1) != 1);
+}
